@@ -5,6 +5,7 @@ package main
 
 import (
 	"context"
+	"sort"
 	"bufio"
 	"bytes"
 	"compress/zlib"
@@ -23,6 +24,7 @@ func mainC23(r *vh.Run) {
 	primsTrees(r)
 	writerDispatch(r)
 	markerSearch(r)
+	sampleStringSearch(r)
 }
 
 // ---- K: writer dispatch ----
@@ -296,6 +298,7 @@ func markerSearch(r *vh.Run) {
 			continue
 		}
 		plainInfl := inflatable(plain)
+		lazyN := countLazy(d.Bytes)
 		// which markers survive an unencrypted rewrite (the optimizer drops e.g. PieceInfo): only those can leak
 		var live []marker
 		for _, m := range d.Markers {
@@ -332,13 +335,129 @@ func markerSearch(r *vh.Run) {
 						r.OracleOK()
 					default:
 						class := "plaintext:" + m.Loc
-						if d.ObjStreams && strings.HasPrefix(m.Loc, "private-") {
+						if lazyN > 0 && strings.HasPrefix(m.Loc, "private-") {
 							class = "plaintext:lazy-objstream-member"
 						}
 						in2 := map[string]any{"doc": d.Name, "alg": a.Name, "write-objstreams": osOut, "marker": m.Text, "location": m.Loc}
 						r.OracleFail(class, in2, fmt.Sprintf("marker of %s found %s in the encrypted output", m.Loc, where))
 					}
 				}
+			}
+		}
+	}
+}
+
+// ---- O on sample documents: long strings of the document itself serve as markers ----
+
+func collectStrings(ctx *model.Context, max int) [][]byte {
+	var out [][]byte
+	seen := map[int]bool{}
+	uniq := map[string]bool{}
+	var walk func(o types.Object, depth int)
+	walk = func(o types.Object, depth int) {
+		if depth > 100 || len(out) >= max {
+			return
+		}
+		if ir, ok := o.(types.IndirectRef); ok {
+			n := ir.ObjectNumber.Value()
+			if seen[n] {
+				return
+			}
+			seen[n] = true
+			d, err := ctx.Dereference(ir)
+			if err != nil {
+				return
+			}
+			walk(d, depth+1)
+			return
+		}
+		if b, ok := strBytes(o); ok {
+			distinct := map[byte]bool{}
+			for _, c := range b {
+				distinct[c] = true
+			}
+			if len(b) >= 16 && len(distinct) >= 9 && !uniq[string(b)] {
+				uniq[string(b)] = true
+				out = append(out, b)
+			}
+			return
+		}
+		switch v := o.(type) {
+		case types.Dict:
+			for _, k := range sortedKeys(v) {
+				walk(v[k], depth+1)
+			}
+		case types.StreamDict:
+			for _, k := range sortedKeys(v.Dict) {
+				walk(v.Dict[k], depth+1)
+			}
+		case types.Array:
+			for _, x := range v {
+				walk(x, depth+1)
+			}
+		}
+	}
+	if ctx.Root != nil {
+		walk(*ctx.Root, 0)
+	}
+	if ctx.Info != nil {
+		walk(*ctx.Info, 0)
+	}
+	return out
+}
+
+func sortedKeys(d types.Dict) []string {
+	ks := make([]string, 0, len(d))
+	for k := range d {
+		ks = append(ks, k)
+	}
+	sort.Strings(ks)
+	return ks
+}
+
+func sampleStringSearch(r *vh.Run) {
+	for _, d := range sampleDocs(r) {
+		plain, err := plainRewrite(d.Bytes, d.ObjStreams)
+		if err != nil {
+			r.Count("skip:sample-baseline-failed")
+			continue
+		}
+		ctx, err := readCtx(plain, "", "")
+		if err != nil {
+			r.Count("skip:sample-read-failed")
+			continue
+		}
+		strs := collectStrings(ctx, 300)
+		if len(strs) == 0 {
+			r.Count("sample-without-long-strings")
+			continue
+		}
+		lazyN := countLazy(d.Bytes)
+		for ai, a := range algs {
+			if !r.Thorough() && ai%2 == 0 {
+				continue
+			}
+			enc, err := encryptBytesDoc(d.Bytes, confFor(a, "user", "owner", model.PermissionsPrint, d.ObjStreams))
+			if err != nil {
+				r.OracleFail("encrypt-failed", map[string]any{"doc": d.Name, "alg": a.Name}, err.Error())
+				continue
+			}
+			infl := inflatable(enc)
+			for _, s := range strs {
+				r.Count("searched:sample-string")
+				hit := bytes.Contains(enc, s)
+				for _, x := range infl {
+					hit = hit || bytes.Contains(x, s)
+				}
+				if !hit {
+					r.OracleOK()
+					continue
+				}
+				class := "plaintext:sample-document-string"
+				if lazyN > 0 {
+					class = "plaintext:lazy-objstream-member"
+				}
+				r.OracleFail(class, map[string]any{"doc": d.Name, "alg": a.Name, "string": vh.Hex(trunc(s))}, "a string of the document is present in clear in the encrypted output")
 			}
 		}
 	}
